@@ -28,15 +28,15 @@ import (
 )
 
 type session struct {
-	sc     *e1.Scenario
-	master *simmaster.Master
-	mu     sync.Mutex
-	srv    []*nmem.Conn
-	cli    []*nmem.Conn
-	after  map[int][]int64
-	att    int
-	onRel  func(conn, i int)
-	onDial func()
+	sc      *e1.Scenario
+	master  *simmaster.Master
+	mu      sync.Mutex
+	srv     []*nmem.Conn
+	cli     []*nmem.Conn
+	after   map[int][]int64
+	att     int
+	onRel   func(conn, i int)
+	onDial  func()
 	onStall func(conn int)
 }
 
